@@ -97,5 +97,5 @@ M = Models()
 
 
 def load_all():
-    from . import std, cosmwasm, storage   # noqa: F401  (registration by import)
+    from . import std, cosmwasm, storage, collections   # noqa: F401  (registration by import)
     return M
